@@ -34,6 +34,7 @@ fn families(run: &Run) -> Vec<SeriesFam> {
             law: Law::Value,
             w_lo: 1,
             w_extra: 2,
+        min_len: 0,
             cfg_ok: cfg_all,
             classify,
         },
@@ -48,6 +49,7 @@ fn families(run: &Run) -> Vec<SeriesFam> {
             law: Law::Value,
             w_lo: 1,
             w_extra: 2,
+        min_len: 0,
             cfg_ok: cfg_all,
             classify,
         },
@@ -77,6 +79,7 @@ fn families(run: &Run) -> Vec<SeriesFam> {
             law: Law::Value,
             w_lo: 1,
             w_extra: 2,
+        min_len: 0,
             cfg_ok: cfg_all,
             classify,
         },
@@ -100,6 +103,7 @@ fn families(run: &Run) -> Vec<SeriesFam> {
             law: Law::Value,
             w_lo: 1,
             w_extra: 2,
+        min_len: 0,
             cfg_ok: cfg_all,
             classify,
         },
@@ -194,6 +198,7 @@ fn clone_shallow(f: &SeriesFam) -> SeriesFam {
         law: f.law,
         w_lo: f.w_lo,
         w_extra: f.w_extra,
+        min_len: f.min_len,
         cfg_ok: f.cfg_ok,
         classify: f.classify,
     }
